@@ -166,6 +166,38 @@ def check_scalar(res, facts):
             rule.ok(key, "as_ref() of the scalar reaches cyclotomic_exp unmodified", fn.loc)
 
 
+def check_prepared(res, facts):
+    """every conversion into G1Prepared / G2Prepared from a projective point or from a reference goes through the one
+    affine constructor: `q.into_affine().into()` / `(*q).into()`.  (A twin that normalises by hand can disagree with
+    the by-value form: Projective is Jacobian, the G2 line-function helper type is homogeneous.)"""
+    rule = res.rule("R-PREPARED", "From<Projective> / From<&_> for G1Prepared / G2Prepared delegate to into_affine() and the affine constructor", 20)
+    NT = DF.TRANSPARENT - {"into"}
+    for f in facts.fns(unit="ws", crate="ark_ec"):
+        if f.kind == "Closure" or f.name != "from":
+            continue
+        slf = (f.impl or {}).get("self") or ""
+        if "Prepared<" not in slf or "::models::" not in slf:
+            continue
+        ta = (f.impl or {}).get("trait_args") or []
+        src = ta[-1] if ta else ""
+        by_value_affine = ("affine::Affine<" in src) and not src.startswith("&")
+        model = slf.split("::models::", 1)[1].split("::", 1)[0]
+        key = "ark_ec|%s::%s<-%s%s" % (model, slf.rsplit("::", 1)[-1].split("<")[0], "&" if src.startswith("&") else "", "Projective" if "group::Projective<" in src else "Affine")
+        if by_value_affine:
+            continue
+        ret = DF.expr(f, {"c": 0}, depth=20, transparent=NT)
+        ok = False
+        if isinstance(ret, tuple) and ret[0] == "call" and ret[1] in ("into", "from") and len(ret[2]) == 1:
+            a = ret[2][0]
+            if a == ("arg", 1, ()):
+                ok = True
+            elif isinstance(a, tuple) and a[0] == "call" and a[1] == "into_affine" and a[2] == (("arg", 1, ()),):
+                ok = True
+        if not ok and "affine::Affine<" in src and isinstance(ret, tuple) and ret[0] == "agg" and ret[2] == (("arg", 1, ()),):
+            ok = True       # newtype wrapper around a copy of the affine point
+        (rule.ok if ok else rule.bad)(key, "delegates to the affine constructor" if ok else "conversion is computed as %s instead of delegating to into_affine() and the affine constructor: twins of one conversion can disagree (Projective is Jacobian: x/z^2, y/z^3)" % DF.show(ret)[:200], f.loc)
+
+
 def run(ctx, res):
     facts = ctx.facts(UNITS)
     res.analysed = facts.stats()
@@ -175,6 +207,7 @@ def run(ctx, res):
     check_loopbits(res, facts)
     check_finalexp(res, facts)
     check_scalar(res, facts)
+    check_prepared(res, facts)
     return {
         "level": "other",
         "explanation": "Sibling-agreement and dataflow rules over the MIR of the five pairing models in ark-ec (serial and parallel feature configurations) and the hand-written CP6-782 pairing: identity-pair filtering, chunk-count independence of the chunked Miller loops, agreement of the bit strings walked by G2 preparation and the loop (discharged per shipped configuration from the constant table), None-propagation in the final exponentiation. Bilinearity, non-degeneracy and the hard-part addition chains are theorems about the whole computation and are NOT decided.",
